@@ -18,7 +18,7 @@ META = {
               "(0..8) and as block counts (0..6); base 0..65534 even",
     "outside": ["chains deeper than 20 (additive) / 6 (non-linear): the property's 300/30 are a budget choice away, not a different mechanism",
                 "moving definitions inside '.repeat' or across '.end'"],
-    "structure": "13 unit-level shapes of the deferred-value algebra (all coefficients and values unbounded integers); 7 definition families x uses in immediate, index, absolute, relative, branch target, .word, .byte, .blkb count, .link",
+    "structure": "16 unit-level shapes of the deferred-value algebra (all coefficients and values unbounded integers; promises settled with pending values, with other promises and with polynomials); 7 definition families x uses in immediate, index, absolute, relative, branch target, .word, .byte, .blkb count, .link; a constant nobody refers to that fails once later definitions are known; a file linked earlier that exports the name defined further down",
     "stubs": [],
 }
 
